@@ -115,3 +115,11 @@ package smgp
 //@   props C16,C03
 //@   modifies o
 //@   ensures [C16 added] mapdom(o, int(opt.tag))
+
+//@ func (o Option) Value
+//@   props C16
+//@   ensures [C16 accessor] content(result) == content(o.value)
+
+//@ func (o Option) IsEmpty
+//@   props C16
+//@   ensures result <==> (o.tag == 0 && o.length == 0 && len(o.value) == 0)
